@@ -299,9 +299,12 @@ class MappingStorage:
             self._transaction = transaction
             self._tdata = {}
             if tid is None:
+                # A pack can remove the newest transactions, _ltid
+                # remembers them: ids must stay above it as well.
+                old_tid = self._ltid
                 if self._transactions:
-                    old_tid = self._transactions.maxKey()
-                else:
+                    old_tid = max(old_tid, self._transactions.maxKey())
+                if old_tid == ZODB.utils.z64:
                     old_tid = None
                 tid = ZODB.utils.newTid(old_tid)
             self._tid = tid
